@@ -493,13 +493,19 @@ def execute(plan, keep_log=False):
 
             try:
                 paths = {}
+                pair_mode = len(plan["ops"]) % 3
                 for wid in ("w0", "w1"):
                     d2, c2 = files[wid]
-                    # one by its telling name, the other by a neutral one
-                    pth = "/simfs/r/pair-%s.%s%s" % (wid, stem, EXT[c2]) if wid == "w0" else "/simfs/r/pair-%s.bin" % wid
+                    # one by its telling name and the other by a neutral one, or both by neutral names (both sniffed)
+                    pth = "/simfs/r/pair-%s.%s%s" % (wid, stem, EXT[c2]) if (wid == "w0" and pair_mode == 0) else "/simfs/r/pair-%s.bin" % wid
                     w.fs.put(pth, d2)
                     paths[wid] = pth
-                ra, rb = _RR(pre + paths["w0"]), _RR(pre + paths["w1"])
+                if pair_mode == 2:
+                    # the first as an open file object (container and codec sniffed), the second by a neutral name
+                    ra = _RR(fileobj=io.BytesIO(files["w0"][0]))
+                    rb = _RR(pre + paths["w1"])
+                else:
+                    ra, rb = _RR(pre + paths["w0"]), _RR(pre + paths["w1"])
                 w.keep += [ra, rb]
                 ga, gb = [], []
                 ia, ib = iter(ra), iter(rb)
